@@ -861,6 +861,24 @@ func (e *SEnv) call(x *SCall) Val {
 			key := "g.calls." + lab
 			vc.ensureKey(key, "Int")
 			return intVal(vc.get(e.cur, key))
+		case "first":
+			// first(Label): result of the first call counted under Label
+			lab := x.Args[0].(*SIdent).Name
+			t, ok := vc.lastType[lab]
+			if !ok {
+				e.fail("first(%s): no counted call seen", lab)
+			}
+			v := Val{T: t}
+			for i := range vc.p.lay.of(t).Kinds {
+				v.S = append(v.S, vc.get(e.cur, fmt.Sprintf("g.first.%s:%d", lab, i)))
+			}
+			return v
+		case "alltrue":
+			// alltrue(Label): every call counted under Label so far returned true
+			lab := x.Args[0].(*SIdent).Name
+			ak := "g.all." + lab
+			vc.ensureKey(ak, "Bool")
+			return boolVal(vc.get(e.cur, ak))
 		case "at":
 			// at(Label, e): e evaluated in the state right after the most recent
 			// call counted under Label (the call must dominate this point)
@@ -921,12 +939,13 @@ func (e *SEnv) call(x *SCall) Val {
 		case "iface":
 			// iface(p): the interface value obtained by converting pointer p
 			v := arg(0)
-			pt, ok := types.Unalias(v.T).Underlying().(*types.Pointer)
-			if !ok {
-				e.fail("iface(p): pointer expected")
+			if _, ok := types.Unalias(v.T).Underlying().(*types.Pointer); ok {
+				return Val{T: types.NewInterfaceType(nil, nil), S: []Term{tInt(int64(vc.p.typeID(v.T))), v.S[0], v.S[1]}}
 			}
-			_ = pt
-			return Val{T: types.NewInterfaceType(nil, nil), S: []Term{tInt(int64(vc.p.typeID(v.T))), v.S[0], v.S[1]}}
+			if ks := vc.p.lay.of(v.T).Kinds; len(ks) == 1 && ks[0] == KI {
+				return Val{T: types.NewInterfaceType(nil, nil), S: []Term{tInt(int64(vc.p.typeID(v.T))), v.S[0], "0"}}
+			}
+			e.fail("iface(x): pointer, map or integer expected")
 		case "isnil":
 			return boolVal(tEq(arg(0).S[0], "0"))
 		case "ref":
@@ -1037,7 +1056,18 @@ func (e *SEnv) call(x *SCall) Val {
 		}
 		_, havePtr := types.Unalias(recv.T).Underlying().(*types.Pointer)
 		if wantPtr && !havePtr {
-			e.fail("method %s needs an addressable receiver", sel.Name)
+			// take the address of an addressable receiver expression (x.f, s[i])
+			func() {
+				defer func() {
+					if r := recover(); r != nil {
+						if _, isU := r.(unsupported); isU {
+							e.fail("method %s needs an addressable receiver", sel.Name)
+						}
+						panic(r)
+					}
+				}()
+				recv = e.addr(sel.X)
+			}()
 		}
 		if !wantPtr && havePtr {
 			pt := types.Unalias(recv.T).Underlying().(*types.Pointer)
